@@ -32,9 +32,12 @@ def run_group(pid):
             subprocess.run("rm -rf /tmp/tlsverif-scratch/evid-matrix-%s" % n, shell=True)
         out[n] = res
         print(n, {k: v for k, v in res.items() if not k.endswith("_keys") and v != "silent"}, flush=True)
+        # partial results survive an interrupted run
+        json.dump(out, open("/tmp/tlsverif-scratch/matrix-partial-%s.json" % pid, "w"))
     return out
 
-with ThreadPoolExecutor(9) as ex:
+os.makedirs("/tmp/tlsverif-scratch", exist_ok=True)
+with ThreadPoolExecutor(int(os.environ.get("MATRIX_WORKERS", "9"))) as ex:
     allres = {}
     for r in ex.map(run_group, sorted(groups)):
         allres.update(r)
